@@ -1,4 +1,5 @@
 /- line-protocol handlers for C08 (Pauli encodings) -/
+import Driver.Loop
 import NumqiModel.Pauli
 
 namespace Numqi.Driver.C08
